@@ -1,7 +1,7 @@
 (* C06 -- the built-in Targets behave as a content map plus a reference -> descriptor map.
    Only statements closed by [exact]; the lemmas live in Proofs/Stores.v, the executable
    models (memory store, OCI layout store, abstract specification) in Model/Stores.v. *)
-From Oras Require Import Base.Prelude Model.Stores Model.StoresConc Proofs.Stores Proofs.StoresConc.
+From Oras Require Import Base.Prelude Generated.GC06 Model.Stores Model.StoresConc Proofs.Stores Proofs.StoresConc.
 From Coq Require Import Permutation.
 
 (* For every history, the memory store (cas.Memory + resolver.Memory + graph.Memory)
@@ -184,6 +184,15 @@ Theorem C06_fetch_returns_pushed_file_refuted :
     = [FO OOk; FO (OBytes 1 5)] /\ b_len w_trailing = 6.
 Proof. exact file_trailing_witness. Qed.
 Print Assumptions C06_fetch_returns_pushed_file_refuted.
+
+(* ---- tie to the source ---- *)
+(* the media types descriptor.IsManifest accepts are exactly those content.Successors
+   decodes, and there are five of them (the model's media type ids 1..5) *)
+Theorem C06_manifest_types_from_source :
+  ((forall x, In x isManifest_cases <-> In x successors_cases) /\
+   (length isManifest_cases = 5%nat) /\ NoDup isManifest_cases)%type.
+Proof. exact manifest_types_from_source. Qed.
+Print Assumptions C06_manifest_types_from_source.
 
 (* ---- the hypotheses are satisfiable: a concrete universe and history ---- *)
 Definition ex_U (g : N) : gkey :=
